@@ -276,6 +276,9 @@ class Interp:
         return v
 
     def call_closure(self, cl: Closure, a, k):
+        mod = self.contracts.get(getattr(cl, "__qualname__", None)) if self.contracts else None
+        if mod is not None:
+            return mod(self, list(a), dict(k))  # modular call: the callee's contract, not its body
         node = cl.node
         args = node.args
         env = Env(parent=cl.env)
@@ -969,18 +972,59 @@ class Interp:
 
         return models.dispatch_call(self, f, a, k)
 
-    def call_merged(self, f, a, k):
+    def call_merged(self, f, a, k, wellformed=None):
         """Call a small pure function and merge its (scalar) results over its internal branches into one ite
         term, so that e.g. `-1 if blank else int(text)` does not fork the enclosing path (DESIGN.md §2.2.7).
-        Falls back to ordinary forking execution when the results cannot be merged."""
+        Falls back to ordinary forking execution when the results cannot be merged.
+
+        wellformed=<label>: the internal branches that raise are excluded by a *recorded well-formedness
+        assumption* on the input (e.g. "the text of a numeric field is numeric or blank"); the assumptions are
+        collected in path.wf_assumptions and reported in the evidence — they are preconditions, not proved."""
+        from .core import LocalRaise, exc_text
+
         n_eff = len(self.effects)
-        try:
-            results = self.path.local_paths(lambda: self.call(f, a, k))
-        except Undecided:
-            raise
-        except BaseException:
-            del self.effects[n_eff:]
-            return self.call(f, a, k)
+        results = None
+        tkey = _template_key(f, a) if wellformed is not None else None
+        if tkey is not None:
+            tmpl = _TEMPLATES.get(tkey)
+            if tmpl is None:
+                x = z3.Const("tmpl!x", a[0].term.sort())
+                a2 = [Sym(x, a[0].pyt)] + list(a[1:])
+                try:
+                    saved_pc, saved_hyps = self.path.pc, self.path.hyps
+                    r0 = self.path.local_paths(lambda: self.call(f, a2, k), catch=True)
+                except BaseException:
+                    r0 = None
+                if r0 is not None and all(_template_value_ok(v) for _, v in r0):
+                    tmpl = _TEMPLATES[tkey] = (x, r0)
+                else:
+                    _TEMPLATES[tkey] = tmpl = False
+            if tmpl:
+                x, r0 = tmpl
+                sub = [(x, a[0].term)]
+                results = [([z3.substitute(c, *sub) for c in conds],
+                            Sym(z3.substitute(v.term, *sub), v.pyt) if isinstance(v, Sym) else v) for conds, v in r0]
+        if results is None:
+            try:
+                results = self.path.local_paths(lambda: self.call(f, a, k), catch=wellformed is not None)
+            except Undecided:
+                raise
+            except BaseException:
+                del self.effects[n_eff:]
+                return self.call(f, a, k)
+        if wellformed is not None:
+            good = []
+            for conds, v in results:
+                if isinstance(v, LocalRaise):
+                    if not conds:
+                        raise v.exc
+                    neg = z3.Not(z3.And(*conds)) if len(conds) > 1 else z3.Not(conds[0])
+                    self.path.assume(neg)
+                    self.path.__dict__.setdefault("wf_assumptions", []).append(
+                        (wellformed, exc_text(v.exc, 120), neg))
+                else:
+                    good.append((conds, v))
+            results = good
         if len(results) == 1:
             conds, v = results[0]
             for c in conds:
@@ -991,6 +1035,51 @@ class Interp:
             del self.effects[n_eff:]
             return self.call(f, a, k)
         return merged
+
+
+_TEMPLATES = {}
+
+
+def _template_key(f, a):
+    """adapters whose _decode depends on nothing but the raw value (no use of self / context / path): their merged
+    result is computed once on a placeholder and instantiated by substitution (pure speed-up)"""
+    func = getattr(f, "__func__", None) or getattr(getattr(f, "closure", None), "func", None)
+    obj = getattr(f, "__self__", None) or getattr(f, "obj", None)
+    if not a or not isinstance(a[0], Sym) or not z3.is_expr(a[0].term):
+        return None
+    node = None
+    cl = getattr(f, "closure", None)
+    if cl is not None:
+        node = cl.node
+    elif func is not None:
+        try:
+            node = function_ast(func)
+        except Exception:
+            return None
+    if node is None:
+        return None
+    key = ("tmpl", id(node), a[0].pyt if not isinstance(a[0].pyt, str) else a[0].pyt, a[0].term.sort().name())
+    ok = _PURE_IN_ARG0.get(id(node))
+    if ok is None:
+        args = [x.arg for x in node.args.args]
+        first = args[1] if args and args[0] == "self" else (args[0] if args else None)
+        others = {x for x in args if x != first}
+        used = {n.id for n in ast.walk(node) if isinstance(n, ast.Name)}
+        ok = _PURE_IN_ARG0[id(node)] = not (used & others)
+    return key if ok else None
+
+
+_PURE_IN_ARG0 = {}
+
+
+def _template_value_ok(v):
+    from .core import LocalRaise
+
+    if isinstance(v, LocalRaise):
+        return True
+    if isinstance(v, Sym):
+        return z3.is_expr(v.term)
+    return isinstance(v, (int, float, str, bool, type(None)))
 
 
 class StarSym:
